@@ -5,6 +5,7 @@ package blockchain
 import (
 	"github.com/virel-project/virel-blockchain/v3/adb"
 	"github.com/virel-project/virel-blockchain/v3/block"
+	"github.com/virel-project/virel-blockchain/v3/stratum/stratumsrv"
 	"github.com/virel-project/virel-blockchain/v3/transaction"
 	"github.com/virel-project/virel-blockchain/v3/util"
 	"github.com/virel-project/virel-blockchain/v3/util/uint128"
@@ -61,3 +62,6 @@ func (bc *Blockchain) VerifValidateMempoolTx(txn adb.Txn, tx *transaction.Transa
 
 // VerifMaxDeviation exposes the LTTC threshold constant of difficulty.go.
 const VerifMaxDeviation = maxDeviation
+
+// VerifHandleStratumConn is the per-connection stratum handler (login, submit).
+func (bc *Blockchain) VerifHandleStratumConn(v *stratumsrv.Conn) error { return bc.handleConn(v) }
